@@ -123,6 +123,12 @@ func (d *Driver) expectedSplit(rq *ReqPlan, msgMax int, sentAt time.Duration) Ex
 			data = append(data, r)
 		}
 	}
+	for _, r := range data {
+		if (held || late) && len(r.Reply) > 0 && r.Reply[0] == '-' {
+			// one fragment stalls, another was answered with an error: whichever the proxy sees first decides the error text
+			return Expected{Known: true, AnyError: true, Why: "a fragment stalled and another one was answered with an error"}
+		}
+	}
 	if d.P.Proxy.TimeoutMs > 0 && held {
 		return Expected{Known: true, Exact: []byte(RTimeout), Why: "a fragment stalled beyond the request timeout"}
 	}
